@@ -232,6 +232,21 @@ PROPERTIES = {
                      "floats as reals"],
         explanation="the real function executed on z3 terms with defining constraints; polynomial identities discharged by z3's non-linear real arithmetic",
     ),
+    "C07": dict(
+        engines="AB",
+        claim="On the exact small transform (symbolic coefficients, fillings, weights, G, k): density, spin densities, kinetic-energy density and Ekin "
+              "are invariant under reordering the k-points with all per-k tables, and Ekin(k, W) = Ekin(-k, conj W(-G)). Equality of full band spectra at "
+              "k, k + G0, -k and of a k-mesh calculation with the supercell Gamma-point calculation are whole-calculation statements that contracts on "
+              "single functions do not decide: bounded native comparisons (dense H eigenvalues; per-contribution energies mesh vs supercell; permuted "
+              "weighted k-points), labelled bounded. Related proved clauses: C03 (|G+k|^2 masks, L), C04 (weights in density / tau), C05 (k-weighted band "
+              "energy), C12 (projectors as functions of |G+k|), C15 (meshes, k.a = 2 pi kappa, weights).",
+        note="the symbolic instance is small (4-point transform, 3 plane waves, 2 k-points); numpy-structural assumption as in C04",
+        modules=["contracts.c07"],
+        level="proof",
+        trusted_base=["CPython (executes the traced control flow)", "in-house exact-algebra normaliser (engine A)"],
+        assumptions=["floats as reals", "index-generic numpy operations ('numpy-structural')"],
+        explanation="exact-algebra tracing of the real density / tau / Ekin code under a permutation of the per-k tables",
+    ),
     "C09": dict(
         engines="AZ",
         claim="'Agrees with Libxc for all inputs' is decided against spec functions: the published closed forms of LDA exchange, PW92 (both "
